@@ -964,12 +964,14 @@ NEW_SNIPPETS = [
     '+1', '-1', '.5', '1.', '1e3', '+.5e-3', '-a', '--x', '0', '00', '-', '/', '%', '&', '<', '?', '^', '`', '\t', '\r', '\f', '\r\n', '\x00', '\x7f', '\ufeff', '\\\n', '"\\\n"', "'s'", 'url("x")', "url('", 'url( x )',
     'U+??', 'u+0-7F', '/**/', '*/', '<!', '--', 'progid:',
 ]
-EXTENDED = ALPHABET + [x for x in NEW_SNIPPETS if x not in ALPHABET]
+# code points no codec can encode: a lone surrogate written as an escape (decoded by the tokenizer) and given directly in the text
+SURROGATES = ['\\d800 ', '\ud800']
+EXTENDED = ALPHABET + [x for x in NEW_SNIPPETS + SURROGATES if x not in ALPHABET]
 assert len(EXTENDED) == len(set(EXTENDED))
 # one probe per token kind, for the longer sequences
 PROBES = ['a', '@x', '@import', '@top-left', '@page', '{', '}', '(', ')', '[', ']', ';', ':', ',', '!', '!important', '"s"', '"', 'url(x)', 'url(', 'f(', 'hsl(', 'var(', '1', '2px', '3%', '+', '-', '#abc', '#',
-          '/*c*/', '/*', ' ', '\n', '\\', '\\7d ', '\\{', '\\22 ', '.', '*', '=', 'U+1-2', '<!--', '\xe9']
-PROBES_QUICK = ['a', '@x', '@top-left', '{', '}', '(', ')', ';', ':', '!important', '"', 'url(', 'f(', 'hsl(', '1', '+', '#abc', '/*c*/', '/*', ' ', '\\', '\\7d ', '\\{', '\xe9']
+          '/*c*/', '/*', ' ', '\n', '\\', '\\7d ', '\\{', '\\22 ', '.', '*', '=', 'U+1-2', '<!--', '\xe9', '\\d800 ']
+PROBES_QUICK = ['a', '@x', '@top-left', '{', '}', '(', ')', ';', ':', '!important', '"', 'url(', 'f(', 'hsl(', '1', '+', '#abc', '/*c*/', '/*', ' ', '\\', '\\7d ', '\\{', '\xe9', '\\d800 ']
 assert all(x in EXTENDED for x in PROBES) and all(x in PROBES for x in PROBES_QUICK)
 
 CONTEXTS = {   # name: (mode, text with one hole)
@@ -984,6 +986,10 @@ CONTEXTS = {   # name: (mode, text with one hole)
     'pseudo function argument': ('sheet', 'a:f({F}){b:c}'),
     ':not argument': ('sheet', 'a:not({F}){b:c}'),
     'nth argument': ('sheet', 'a:nth-child({F}){b:c}'),
+    'nth argument tail before a combinator': ('sheet', 'a:nth-child(2n{F})>b{b:c}'),
+    'nth argument tail before an attribute selector': ('sheet', 'a:nth-child(2n+{F})[x]{b:c}'),
+    ':not argument tail before a combinator': ('sheet', 'a:not(b{F}) > c{b:c}'),
+    'pseudo function argument tail before a combinator': ('sheet', 'a:f(x{F})+b{b:c}'),
     'after pseudo colon': ('sheet', 'a:{F}{b:c}'),
     'declaration block': ('sheet', 'a{{F}}'),
     'declaration block after a declaration': ('sheet', 'a{b:c;{F}}'),
